@@ -80,6 +80,8 @@ func runC14(e *Engine, g G, o RunOpt) RunInfo {
 			sv.AuthReply = 1 + g.N("authreply", 5)
 			if sv.AuthReply == AuthFailure {
 				sv.AuthCond = []string{"not-authorized", "credentials-expired", "temporary-auth-failure", "account-disabled", "aborted"}[g.N("authcond", 5)]
+				// many servers end the stream, or just drop the connection, of a client they have refused
+				sv.AuthFailDrop = g.Weighted("after-failure", 5, 2, 3)
 			}
 		}
 		sv.Prefixed = g.Bool("prefixed")
